@@ -117,6 +117,18 @@ func vhDepsSource(depth int, x string) string {
 	case 4:
 		// two variables reach X through the same function
 		src = "package main\nvar a = f()\nvar d = f() + 1\nvar b = 1\nvar c = 2\nfunc f() int { return " + x + " }\n"
+	case 5:
+		// a method called on a composite literal
+		src = "package main\ntype T struct{}\nvar a = T{}.m()\nvar b = 1\nvar c = 2\nfunc (T) m() int { return " + x + " }\n"
+	case 6:
+		// through a function, then a method
+		src = "package main\ntype T struct{}\nvar a = f()\nvar b = 1\nvar c = 2\nfunc f() int { return T{}.m() }\nfunc (T) m() int { return " + x + " }\n"
+	case 7:
+		// a method expression
+		src = "package main\ntype T struct{}\nvar a = T.m(T{})\nvar b = 1\nvar c = 2\nfunc (T) m() int { return " + x + " }\n"
+	case 8:
+		// a call through an interface is NOT a reference to the method (Go spec, package initialization)
+		src = "package main\ntype T struct{}\ntype I interface{ m() int }\nvar a = I(T{}).m()\nvar b = 1\nvar c = 2\nfunc (T) m() int { return " + x + " }\n"
 	case 3:
 		// a local variable shadows the other global: no dependency on it
 		src = "package main\nvar a = f()\nvar b = 1\nvar c = 2\nfunc f() int { " + vhOther(x) + " := 5; return " + x + " + " + vhOther(x) + " }\n"
@@ -169,9 +181,38 @@ func vhDepsHand(i *Interpreter, depth int, x string) (a *node, sc *scope, want, 
 	}
 	ref := func(name string, sym *symbol) *node { return &node{interp: i, kind: identExpr, ident: name, sym: sym} }
 	aid := ref("a", nil) // a newly defined identifier carries no symbol
+	tsym := &symbol{kind: typeSym}
+	lit := func() *node { return vhAdopt(&node{interp: i, kind: compositeLitExpr}, ref("T", tsym)) }
+	mdecl := func() *node {
+		m := vhFuncDecl(i, "m", vhAdopt(&node{interp: i, kind: returnStmt}, ref(x, xsym)))
+		vhAdopt(m.child[0], vhAdopt(&node{interp: i, kind: fieldExpr}, ref("T", tsym)))
+		return m
+	}
+	msel := func(recv *node) *node {
+		return vhAdopt(&node{interp: i, kind: selectorExpr, action: aGetMethod, val: mdecl()}, recv, &node{interp: i, kind: identExpr, ident: "m"})
+	}
 	switch depth {
 	case 0:
 		vhAdopt(an, aid, ref(x, xsym))
+	case 5:
+		sc.sym["T"] = tsym
+		vhAdopt(an, aid, vhAdopt(&node{interp: i, kind: callExpr}, msel(lit())))
+	case 6:
+		sc.sym["T"] = tsym
+		fsym := &symbol{kind: funcSym}
+		fsym.node = vhFuncDecl(i, "f", vhAdopt(&node{interp: i, kind: returnStmt}, vhAdopt(&node{interp: i, kind: callExpr}, msel(lit()))))
+		sc.sym["f"] = fsym
+		vhAdopt(an, aid, vhAdopt(&node{interp: i, kind: callExpr}, ref("f", fsym)))
+	case 7:
+		sc.sym["T"] = tsym
+		vhAdopt(an, aid, vhAdopt(&node{interp: i, kind: callExpr}, msel(ref("T", tsym)), lit()))
+	case 8:
+		sc.sym["T"] = tsym
+		isym := &symbol{kind: typeSym}
+		sc.sym["I"] = isym
+		conv := vhAdopt(&node{interp: i, kind: callExpr}, ref("I", isym), lit())
+		sel := vhAdopt(&node{interp: i, kind: selectorExpr, action: aMethod}, conv, &node{interp: i, kind: identExpr, ident: "m"})
+		vhAdopt(an, aid, vhAdopt(&node{interp: i, kind: callExpr}, sel))
 	default:
 		fsym := &symbol{kind: funcSym}
 		vhAdopt(an, aid, vhAdopt(&node{interp: i, kind: callExpr}, ref("f", fsym)))
@@ -210,7 +251,7 @@ func vhDepsReal(depth int, x string) (a *node, sc *scope, want, other *node) {
 	return sc.sym["a"].node, sc, sc.sym[x].node, sc.sym[vhOther(x)].node
 }
 
-var vhDepthMax = 4
+var vhDepthMax = 8
 
 func vh_C15_deps() {
 	vhResetClock()
@@ -241,6 +282,9 @@ func vh_C15_deps() {
 		xi = 2
 	}
 	dep[0][xi] = true // a refers to X, directly or through functions, and to nothing else
+	if depth == 8 {
+		dep[0][xi] = false // the interface call carries no dependency: declaration order
+	}
 	if depth == 4 {
 		// a, d, b, c: d refers to X through the same function
 		vars = []*node{a, sc.sym["d"].node, bN, cN}
